@@ -7,6 +7,5 @@ for pid, stages in sorted(check.REG.items()):
     for st in stages:
         if st.get("custom_build"):
             continue
-        build.harness(st["variant"], st["name"], st["srcs"], wraps=st.get("wraps", ()), libs=st.get("libs", ("-lgnutls",)),
-                      defines=st.get("defines", ()), extra_cflags=st.get("cflags", ()))
+        check.build_stage(st)
 print("setup ok")
